@@ -655,7 +655,8 @@ def run_crash(case, kind, k, monitor, crashproc, garbage=False, order=None):
     if c.get("resume_after_crash"):
         # the recovery runs to quiet first (run_case drains after the crash); its writes end there
         c["schedule"] = [["crash", kind, k]] + _with_quiet_mark(case["schedule"]) + [["drain"], ["hook", "mark"]]
-    res = EC.run_case(c, monitor, storage_factory="sqlite-file", hooks=_hooks(obs, marks), oracles=("index", "storage"))
+    res = EC.run_case(c, monitor, storage_factory="sqlite-file", hooks=_hooks(obs, marks), oracles=("index", "storage"),
+                      extra_rounds=3)
     if not hasattr(obs, "rec_writes_until_quiet"):
         obs.rec_writes_until_quiet = list(obs.rec_writes)
     obs.check_shapes()
@@ -734,7 +735,9 @@ def explore_case(case, mon, cp, rng=None, max_points=None):
     points = [("storage_before", k) for k in range(1, ns + 1)] + [("provider_after", k) for k in range(1, np_ + 1)]
     if max_points is not None and len(points) > max_points:
         points = (rng or random).sample(points, max_points)
-    hist = (ns + np_, nu)
+    hist = dict(points=ns + np_, user_ops=nu, distinct=[], sample=None)
+    base_key = fw.case_id(EC.jsonable_case(dict(f=case["flavour"], b=case.get("base"), s=case["schedule"], h=case.get("hash_mult"),
+                                                 r=bool(case.get("resume_after_crash")))))[:16]
     n = 0
     for kind, k in points:
         n += 1
@@ -767,7 +770,20 @@ def explore_case(case, mon, cp, rng=None, max_points=None):
             fails.append(dict(kind="monitor", case=EC.jsonable_case(crash_case), guard=EC.GUARDS.get(r.verdict[1], r.verdict[1]),
                               what="run with a crash rejected: " + EC.describe(r)[:400], tail=[repr(e)[:160] for e in r.events[-10:]]))
             continue
+        # non-trivial: the restarted engine had something to do (it wrote to storage or to a provider)
+        if r.extra.get("storage_writes", 0) + r.extra.get("provider_writes", 0) > 0:
+            hist["distinct"].append("%s/%s/%d/%s" % (base_key, kind, k, order))
         o.judge_recovery(r.final_views) if not case.get("resume_after_crash") else o.judge_recovery_writes_only()
+        if hist["sample"] is None and kind == "provider_after":
+            hist["sample"] = dict(
+                flavour=case["flavour"], resume_after_recovery=bool(case.get("resume_after_crash")),
+                base=[a[:2] for a in case.get("base", [])],
+                schedule=[(a if a[0] != "user" else ["user", a[1], [x if not isinstance(x, bytes) else "<%d bytes>" % len(x) for x in a[2]]])
+                          for a in case["schedule"]],
+                crash_points=dict(storage_before=ns, provider_after=np_),
+                one_crash_run=dict(crash=[kind, k], order=order or "fair_rounds", verdict="accepted",
+                                   recovery_writes=[list(w) for w in o.rec_writes_until_quiet][:8],
+                                   recovery_storage_writes=r.extra.get("storage_writes")))
         st.update({k2: v for k2, v in o.stats.items() if k2.startswith("recover") or k2.startswith("crash_states")})
         for what, ctx in o.bad[:2]:
             fails.append(dict(kind="oracle", case=EC.jsonable_case(crash_case), what=what, detail=ctx))
